@@ -77,9 +77,14 @@ def every_opening_wakes(F, R, ver):
         # a window test (`inflight.len() < cap`) that decides no slot is free also ends the obligation
         window_tests = {x[0] for x in calls_on_field(b, r'VecDeque::<T, A>::len$', 'inflight')} if b.path.endswith('::disable_wr_backpressure') else set()
         requeue = {x[0] for x in calls_on_field(b, r'VecDeque::<T, A>::push_back$', 'inflight')}
+        emptied = {x[0] for x in calls_on_field(b, r'VecDeque::<T, A>::(clear|drain)$', 'waiters')}
         for obi, what in opens:
             n += 1
             bad = []
+            if obi != 0 and any(b.dominates(e, obi) for e in emptied) and not b.yields():
+                # nobody is parked when the window opens: the waiters were all dropped earlier in this synchronous function
+                R.ob('C13.every-opening-wakes', '%s|%s|%s' % (b.path, what, 'all-exits-wake'), True, '', b.loc(obi))
+                continue
             for rb in b.returns():
                 # error exits close the connection (clear_queues): ignore returns whose value is Err
                 pass
